@@ -11,6 +11,7 @@ cart with file.from_file and compares the loaded code line by line.
 import json
 import os
 import random
+import shutil
 import tempfile
 
 from .. import core
@@ -40,7 +41,8 @@ def sandbox(tmp, lua_final_nl):
         with open(os.path.join(S, d, 'T.lua'), 'wb') as f:
             f.write(b'l1=1\nl2=2' + (b'\n' if lua_final_nl else b''))
         with open(os.path.join(S, d, 'T.p8'), 'wb') as f:
-            f.write(HDR + b'c1=1\n-->8\nc2=2\n#include L.lua\nc3=3\n-->8\n__gfx__\n')
+            # (in the no-final-newline sandbox the included cart, too, ends right after its last code line)
+            f.write(HDR + b'c1=1\n-->8\nc2=2\n#include L.lua\nc3=3\n-->8' + (b'\n__gfx__\n' if lua_final_nl else b''))
         g = cartio.make_game(cartio.memory((0, 0), {}), LINE['P1'] + b'\n' + LINE['P2'] + b'\n', None, 8)
         gfile.to_file(g, os.path.join(S, d, 'T.p8.png'))
     os.symlink(S, S + '_ln')          # the same directory reached through a symbolic link
@@ -121,6 +123,68 @@ def classify(want, got):
     return None
 
 
+def _reload(item):
+    """one process: load a cart, replace its include target on disk by another version, load again (and once more after
+    switching back): every load splices the target as it is NOW"""
+    kind, tmp = item
+    from pico8.game import file as gfile
+    from .. import cartio
+    S = tempfile.mkdtemp(prefix='c20r_', dir=tmp)
+    vers = {'A': [b'va1=1', b'-->8', b'va2=2 -- ' + b'a' * 40], 'B': [b'vb1=1', b'vb1b=1 -- ' + b'b' * 40, b'-->8', b'vb2=2'], 'C': [b'vc=3 -- ' + b'c' * 60]}   # (long enough to be stored compressed in a .p8.png: a raw-stored code gains a newline when read, which C04 allows)
+    name, tab = kind
+    out = []
+    for v in ('A', 'B', 'A', 'C'):
+        lines = vers[v]
+        code = b''.join(l + b'\n' for l in lines)
+        tp = os.path.join(S, name)
+        if name.endswith('.lua'):
+            open(tp, 'wb').write(code)
+        elif name.endswith('.png'):
+            gfile.to_file(cartio.make_game(cartio.memory((0, 0), {}), code, None, 8), tp)
+        else:
+            open(tp, 'wb').write(HDR + code + b'__gfx__\n')
+        sel = (':%d' % tab) if tab is not None else ''
+        open(os.path.join(S, 'main.p8'), 'wb').write(HDR + b'm1=1\n#include ' + name.encode() + sel.encode() + b'\nm2=2\n__gfx__\n')
+        if tab is None:
+            mid = lines
+        else:
+            tabs = [[]]
+            for l in lines:
+                if l == b'-->8':
+                    tabs.append([])
+                else:
+                    tabs[-1].append(l)
+            mid = tabs[tab] if tab < len(tabs) else []
+        want = [b'm1=1'] + mid + [b'm2=2']
+        try:
+            g = gfile.from_file(os.path.join(S, 'main.p8'))
+            got = [l for l in b''.join(g.lua.to_lines()).split(b'\n')]
+            if got and got[-1] == b'':
+                got = got[:-1]
+        except Exception as e:  # noqa
+            got = [b'<%s>' % type(e).__name__.encode()]
+        out.append((v, want, got))
+    shutil.rmtree(S, ignore_errors=True)
+    return out
+
+
+def reload_histories(ctx):
+    kinds = [('T.lua', None), ('T.p8', None), ('T.p8', 0), ('T.p8', 1), ('T.p8.png', None), ('T.p8.png', 1)]
+    res = core.parmap(_reload, [(k, ctx.tmp) for k in kinds], procs=6)
+    for (name, tab), r in zip(kinds, res):
+        for j, (v, want, got) in enumerate(r):
+            ctx.evaluations += 1
+            if want == got:
+                ctx.traces += 1
+                ctx.nontrivial += 1
+            else:
+                ctx.violation('reload/%s/%s' % (classify(want, got), name.split('.', 1)[1] + ('-tab' if tab is not None else '')),
+                              'load %d in one process of a cart that includes %s%s, after the target was replaced on disk (version %s): loaded %r, the target now holds %r' % (
+                                  j + 1, name, '' if tab is None else ':%d' % tab, v, got[:6], want[:6]), {'kind': 'reload', 'target': name, 'tab': tab})
+            if want != got:
+                break
+
+
 def run(ctx):
     ctx.rule = ('every cart of <= N lines over {plain line, #include of a .lua file / a .p8 cart / a .p8.png cart in the cart directory or a subdirectory, tab selectors none and 0..3, a missing target}; '
                 'each with the .lua target ending in a newline and not; non-trivial = cart contains at least one include and the loaded lines equal the specified splice (or the load fails as specified)')
@@ -161,6 +225,7 @@ def run(ctx):
                           {'kind': 'include', 'cart': rec['cart'], 'lua_final_newline': nl})
     ctx.traces += good
     ctx.nontrivial += good
+    reload_histories(ctx)
     ctx.exhaustive = False
     ctx.notes['exhaustive_up_to_lines'] = 2 if ctx.quick else 3
     ctx.canary(classify([b'a', b'b'], [b'ab']) == 'glued-line' and classify([b'a'], [b'a']) is None, 'comparison notices a glued line')
